@@ -8,3 +8,12 @@ claim("C18",
       "exception table in checker/internal/engb/err.go (strings.Builder writes, stderr diagnostics, read-only Close, two probes); "
       "no-return functions are computed from os.Exit/log.Fatal/panic",
       "DESIGN.md §2 C18, Appendix B-ERR")
+
+claim("C12",
+      "SSA classification of every range-over-map loop (B-DET1) with derived uniqueness facts, ambient-input call scan (B-DET2), file-path taint to output text (B-DET3)",
+      "Decides that no map iteration order, ambient input (clock, random, env, cwd, pid) or schema directory path can reach the emitted text through the "
+      "module's own code: each of the module's range-over-map loops is proven order-free from its body (sorted keys / iteration-keyed effects / unique-key search), "
+      "the one unsorted key list (main.allKeys) is accepted only under a re-checked side condition, and the file path is shown to reach names only via filepath.Base. "
+      "A necessary structural condition of determinism for all inputs and hash seeds; byte equality itself and third-party iteration order are not decided.",
+      "pure/sort callee tables and the one S4 exception (yamlutils.fixMapKeysIn) in checker/internal/engb/det.go; third-party libraries deterministic",
+      "DESIGN.md §2 C12, Appendix B-DET1")
